@@ -121,7 +121,10 @@ class Ctx:
         """Record one explored case. `key`: hashable identity of a non-trivial case (None = trivial)."""
         self.evaluations += 1
         if key is not None:
-            self.distinct.add(key if isinstance(key, (str, int, tuple)) else repr(key))
+            try:
+                self.distinct.add(key if isinstance(key, (str, int, tuple)) else repr(key))
+            except TypeError:
+                self.distinct.add(repr(key))
         if sample is not None and len(self.samples) < 6:
             self.samples.append(sample)
         for k, v in dist.items():
